@@ -161,6 +161,8 @@ def wf_model(h: H, M, parts=('M0', 'M1', 'M2', 'M3', 'M4', 'M5')):
             ('M3.field-names', FA([s], z3.Implies(is_assoc(h, M, s), h.f('lname', s) != h.f('rname', s)), [h.cnt(SL, s)])),
             ('M3.closed.l', FA([s, x], z3.Implies(z3.And(is_assoc(h, M, s), in_l(h, s, x) > 0), is_asset(h, M, x)), [in_l(h, s, x)])),
             ('M3.closed.r', FA([s, x], z3.Implies(z3.And(is_assoc(h, M, s), in_r(h, s, x) > 0), is_asset(h, M, x)), [in_r(h, s, x)])),
+            ('M3.field-nodup', FA([s, x], z3.Implies(is_assoc(h, M, s), z3.And(in_l(h, s, x) <= 1, in_r(h, s, x) <= 1)), [in_l(h, s, x)], )),
+            ('M3.field-nodup2', FA([s, x], z3.Implies(is_assoc(h, M, s), z3.And(in_l(h, s, x) <= 1, in_r(h, s, x) <= 1)), [in_r(h, s, x)], )),
             # an asset lists an association exactly when (once) that association is in the model and lists the asset
             ('M3.backrefs', FA([x, s], z3.Implies(is_asset(h, M, x), h.cnt(h.f('associations', x), s) ==
                                                   z3.If(z3.And(is_assoc(h, M, s), z3.Or(in_l(h, s, x) > 0, in_r(h, s, x) > 0)), 1, 0)),
